@@ -562,3 +562,37 @@ def bypass_edges(I, r, events, a, b):
             continue
         out.append(e)
     return out
+
+
+def joint_alternatives(I, terms, facts, depth=0, limit=64):
+    """flatten several values that were merged at the same program points *together*: a phi at the top of any of them is split
+    by predecessor, every other top-level phi of the same merge point takes the alternative of the same predecessor, and the
+    facts of that edge are added.  Yields (tuple of terms, facts)."""
+    if depth > 8:
+        return [(tuple(terms), facts)]
+    key = None
+    preds = None
+    for t in terms:
+        if isinstance(t, tuple) and t and t[0] == 'phi':
+            key = t[1][:2]
+            preds = [p for p, _ in t[2]]
+            break
+    if key is None:
+        return [(tuple(terms), facts)]
+    pf = I.phi_facts.get(key, {})
+    out = []
+    for p in preds:
+        nt = []
+        for t in terms:
+            if isinstance(t, tuple) and t and t[0] == 'phi' and t[1][:2] == key:
+                d = dict(t[2])
+                nt.append(d.get(p, t) if p in d else t)
+            else:
+                nt.append(t)
+        if nt == list(terms):
+            out.append((tuple(terms), facts))
+            continue
+        out.extend(joint_alternatives(I, nt, facts | set(pf.get(p, ())), depth + 1, limit))
+        if len(out) > limit:
+            return [(tuple(terms), facts)]
+    return out
